@@ -37,7 +37,12 @@ OPS = [
     (r'\.zip\(', '.zip(::core::iter::empty().chain('), (r'\bSimpleType::Struct\b', 'SimpleType::Tuple'), (r'\bSimpleType::Tuple\b', 'SimpleType::Struct'),
     (r'\bRepresentation::U8\b', 'Representation::I8'), (r'\bDiscriminant::Unit\b', 'Discriminant::Data'), (r'\bDiscriminant::Data\b', 'Discriminant::Unit'),
     (r'ref mut', 'ref'), (r'\.dedup_by\(', '.retain(|_| true); let _ = ('),
+    # third operator set (statement level): swallow an error, drop a validation, drop a push, disable a branch
+    (r'\?;', '.ok();'), (r'\breturn Err\(', 'let _ = Err::<(), _>('), (r'\.push\(', '.len(); let _ = ('), (r'else if ', 'else if false && '),
+    (r'\bmatches!\(', '!matches!('), (r'\.chain\(', '.chain(::core::iter::empty()).take(0).chain('), (r'\.extend\(', '.len(); let _ = ('),
+    (r'\.any_custom_bound\(\)', '.all_custom_bound()'), (r'\.all_custom_bound\(\)', '.any_custom_bound()'), (r'\.trait_skipped\(', '.group_skipped(SkipGroup::Debug) || self.trait_skipped('),
 ]
+OPS3_FROM = 52
 
 
 def sites(repo, files=None):
@@ -70,6 +75,7 @@ def main():
     ap.add_argument('--max', type=int, default=60)
     ap.add_argument('--seed', type=int, default=1)
     ap.add_argument('--files', default='')
+    ap.add_argument('--ops-from', type=int, default=0, help='only operators with this index or above')
     ap.add_argument('--retry-survivors', action='store_true', help='re-run the survivors of the report against the current corpus')
     ap.add_argument('--out', default=os.path.join(os.path.dirname(os.path.dirname(os.path.abspath(__file__))), 'seeded', 'mutation_report.json'))
     a = ap.parse_args()
@@ -92,7 +98,7 @@ def main():
         runner.REPO = repo
         cases = corpus.quick_corpus(1)
         mres = check_main.model_observations(cases, ALL_CFGS)
-        all_sites = sites(repo, [x for x in a.files.split(',') if x])
+        all_sites = [x for x in sites(repo, [x for x in a.files.split(',') if x]) if x[4] >= a.ops_from]
         rng = random.Random(a.seed)
         rng.shuffle(all_sites)
         chosen = all_sites[:a.max]
